@@ -253,11 +253,16 @@ theorem unbindable_call_raises (m : Mode) (g : UserGen) (args : CallArgs) (inner
 /-- *decoration-time rejection*: `safe_contextmanager` accepts exactly generator functions, `safe_async_contextmanager` exactly async
     generator functions (and hands `wrapper` to the matching contextlib factory); plain functions, coroutine functions and the
     generator kind of the other flavour raise at decoration time — `AssertionError` whenever `f.__name__` exists -/
-theorem decoration_dispatch (m : Mode) (k : FnKind) (hasName : Bool) :
-    (mustAccept m k = true → decorate m k hasName = .manager (expectedWrap m)) ∧
-    (mustAccept m k = false → (decorate m k hasName).isRejected = true) ∧
-    (mustAccept m k = false → hasName = true → decorate m k hasName = .rejected "AssertionError") := by
-  cases m <;> cases k <;> cases hasName <;> decide
+theorem decoration_dispatch (m : Mode) (k uk : FnKind) (hasName : Bool) :
+    (mustAccept m k = true → decorate m k uk hasName = .manager (expectedWrap m)) ∧
+    (mustAccept m k = false → (decorate m k uk hasName).isRejected = true) ∧
+    (mustAccept m k = false → hasName = true → decorate m k uk hasName = .rejected "AssertionError") := by
+  cases m <;> cases k <;> cases uk <;> cases hasName <;> decide
+
+/-- generated fact, re-read on every run: the kind tests are applied to the object handed to the decorator, not to `inspect.unwrap` of
+    it — what counts is what the callable IS (a `functools.wraps`-decorated plain function around a generator function is a plain
+    function), whatever `__wrapped__` leads to (`uk` is arbitrary in `decoration_dispatch`) -/
+theorem kind_tests_on_parameter : syncTestsOnParam = true ∧ asyncTestsOnParam = true := by decide
 
 /-- syntactic facts the model relies on, re-read from the source on every run: the sync decorator wraps a plain generator function,
     the async one an `async def` (so that the sync/async instance of the machine is the right one), both forward `*args, **kwargs` -/
@@ -598,9 +603,12 @@ example : (run .sync (.withCm (gOk 1) { pos := [5, 6, 7], kw := [(2, 8), (5, 9),
     = some (.setup 1 { pos := [5, 6, 7], kw := [(2, 8), (5, 9), (6, 10), (7, 11), (9, 12)] }) := by decide
 example : run .async (.withCm (gOk 1) { pos := [5], kw := [], fits := false } (.body 0 .normal)) = ([], .raised ⟨.exception, 1000, none⟩) := by decide
 -- decoration
-example : decorate .sync .plain true = .rejected "AssertionError" ∧ decorate .sync .asyncGenerator true = .rejected "AssertionError"
-    ∧ decorate .async .generator true = .rejected "AssertionError" ∧ decorate .async .coroutine true = .rejected "AssertionError"
-    ∧ decorate .sync .generator true = .manager .contextmanager ∧ decorate .async .asyncGenerator false = .manager .asynccontextmanager
-    ∧ decorate .sync .plain false = .rejected "AttributeError" := by decide
+example : decorate .sync .plain .plain true = .rejected "AssertionError" ∧ decorate .sync .asyncGenerator .asyncGenerator true = .rejected "AssertionError"
+    ∧ decorate .async .generator .generator true = .rejected "AssertionError" ∧ decorate .async .coroutine .coroutine true = .rejected "AssertionError"
+    ∧ decorate .sync .generator .generator true = .manager .contextmanager ∧ decorate .async .asyncGenerator .asyncGenerator false = .manager .asynccontextmanager
+    ∧ decorate .sync .plain .plain false = .rejected "AttributeError"
+    -- wrappers: a plain function / a coroutine function that `functools.wraps` a generator function is rejected, a generator function that wraps a plain one accepted
+    ∧ decorate .sync .plain .generator true = .rejected "AssertionError" ∧ decorate .async .coroutine .asyncGenerator true = .rejected "AssertionError"
+    ∧ decorate .sync .asyncGenerator .generator true = .rejected "AssertionError" ∧ decorate .sync .generator .plain true = .manager .contextmanager := by decide
 
 end PedVerif.CtxMgr
